@@ -23,12 +23,12 @@ func init() {
 			"Not decided: equivalence of the resulting world with sequential execution; exactly-once across several source tables mapping to one destination.",
 		TrustedBase: []string{"go/types, go/cfg", "rules C01/R4 and C07/R2"},
 		Rules: []Rule{
-			{ID: "C06/R1", Run: c06r1, Min: 3},
+			{ID: "C06/R1", Run: c06r1, Min: 1},
 			{ID: "C06/R2", Run: func(c *core.Ctx) { c01r4(c); c01r5(c); c06r2(c) }, Min: 4},
-			{ID: "C06/R3", Run: c06r3, Min: 30},
+			{ID: "C06/R3", Run: c06r3, Min: 1},
 			{ID: "C06/R4", Run: c06r4, Min: 1},
-			{ID: "C06/R5", Run: c07r2r3, Min: 10},
-			{ID: "C06/R6", Run: c06r6, Min: 5},
+			{ID: "C06/R5", Run: c07r2r3, Min: 1},
+			{ID: "C06/R6", Run: c06r6, Min: 1},
 		},
 	})
 }
